@@ -67,7 +67,7 @@ def plan(tier, prop):
                             "context_object_reentered_while_active",
                             "bmp_board_iterable", "discovery_under_faults",
                             "bmp_led_iterable", "one_shot_iterable",
-                            "missing_chips"],
+                            "missing_chips", "ethernet_up_but_unreachable"],
         "knob_ranges": {"boards": [1, 3, 6, 12], "root_offset": "0-11 each",
                         "eth_down": "0-30 % of boards",
                         "depth": "0-4", "items": "1-12"},
@@ -879,6 +879,17 @@ class CtxEngine(object):
                                            initial_context=dict(bctx))
             self.methods = self.mc_methods()
             self.chip_list = sorted(m.chips)
+            # Ethernet links that are reported up but lead nowhere (cable to
+            # another network, firewall): the chip gives its address, every
+            # datagram to that address is lost; it stays reachable through
+            # the root board
+            self.eth_unreachable = set()
+            for e in self.eth_positions:
+                if e != tuple(m.root) and m.chips[e].eth_up and \
+                        t.draw(6) == 0:
+                    self.eth_unreachable.add(e)
+                    c.net.endpoints.pop((m.chips[e].ip, 17893), None)
+                    w.probe("ethernet_up_but_unreachable")
             stack = {"mc": [dict(init_ctx)], "bmp": [dict(bctx)]}
             discovered = "no"
             if t.draw(4):
@@ -898,7 +909,8 @@ class CtxEngine(object):
                     c.settle()
                 if st == "ok":
                     up = sum(1 for e in self.eth_positions
-                             if m.chips[e].eth_up)
+                             if m.chips[e].eth_up and
+                             e not in self.eth_unreachable)
                     if n != len(c.mc.connections) - 1:
                         w.violate("DISC", "discover_connections reports %r "
                                   "new connections but holds %d"
@@ -906,7 +918,8 @@ class CtxEngine(object):
                                   kind="discover-count")
                     for xy in c.mc.connections:
                         if xy is not None and not (
-                                xy in self.eth_ip and m.chips[xy].eth_up):
+                                xy in self.eth_ip and m.chips[xy].eth_up and
+                                xy not in self.eth_unreachable):
                             w.violate("DISC", "connection recorded for %r "
                                       "which is not a board's working "
                                       "Ethernet chip" % (xy,),
